@@ -323,8 +323,8 @@ fn combine_vital<T, Q>(v: &mut Vec<T>, other: &mut Vec<T>, q: Q)
 where
     Q: Fn(&T, &T) -> bool,
 {
-    v.retain(|a| !other.iter().any(|b| q(b, a)));
-    other.retain(|a| !v.iter().any(|b| q(b, a)));
+    v.retain(|a| !other.iter().any(|b| q(a, b)));
+    other.retain(|a| !v.iter().any(|b| q(a, b)));
     v.append(other);
 }
 
